@@ -58,7 +58,9 @@ PAIR_NAMES = [('uuid', 'uuid2'), ('uuid', 'uuid_in_list'), ('uuid_in_dict', 'mpr
               ('fits_exactly', 'tiny3'), ('reentrant', 'reentrant'), ('oldstyle', 'uuid'), ('h_re_sub', 'h_re'),
               ('comment_wrapping', 'commented'), ('commented', 'many_comments'), ('comment_wrapping', 'many_comments'),
               ('uuid', 'h_pred_lazy'), ('h_pred_lazy', 'h_sub_b'), ('h_pred_lazy', 'h_pred_lazy'),
-              ('many_floats', 'containers'), ('reentrant_long', 'reentrant_long'), ('reentrant_long', 'tiny3'), ('containers', 'deep150'),
+              ('many_floats', 'containers'), ('weird_getattr', 'uuid'), ('weird_getattr', 'h_unreg'), ('weird_getattr', 'enum'),
+              ('str50', 'str50_narrow'), ('str50_narrow', 'str50'), ('str50', 'long_str'), ('huge_int', 'huge_int'),
+              ('huge_int', 'measurement'), ('reentrant_long', 'reentrant_long'), ('reentrant_long', 'tiny3'), ('containers', 'deep150'),
               ('deep150', 'deep150'), ('tiny', 'deep150'), ('boxed_pretty_repr', 'boxed_pretty_repr'), ('boxed_pretty_repr', 'boxed_pretty_repr2'), ('dataclass', 'dataclass'), ('dataclass', 'dataclass2'), ('attrs', 'attrs'),
               ('ipython_protocol', 'ipython_protocol'), ('h_bad', 'h_bad'), ('h_bad', 'h_unreg'),
               ('containers', 'deep_indent'), ('deep_indent', 'long_str_nested'), ('tiny3', 'deep_indent'), ('h_pred_c', 'h_pred_b'), ('h_pred_b', 'h_pred_c'), ('h_pred_c', 'h_pred'),
@@ -195,6 +197,27 @@ class BoxU:
 
     def __repr__(self):
         return 'Box(%r)' % (self.item,)
+
+
+class Weird:
+    """unregistered; attribute access raises KeyError (a predicate that probes attributes raises on it)"""
+
+    def __getattr__(self, name):
+        raise KeyError(name)
+
+    def __repr__(self):
+        return 'Weird()'
+
+
+class Measurement:
+    def __init__(self, v):
+        self.v = v
+
+    def __repr__(self):
+        try:
+            return 'Measurement(%d)' % self.v
+        except ValueError:
+            return 'Measurement(<int of %d bits>)' % self.v.bit_length()
 
 
 class HBase2:
@@ -359,6 +382,11 @@ def setup():
     add(('many_floats', 'layout', [i / 7 for i in range(150)], {'width': 60}))
     add(('h_pred', 'plain', HPred('p'), {}))
     add(('h_unreg', 'plain', [HUnreg(), 1], {}))
+    add(('weird_getattr', 'plain', [Weird(), 1], {}))
+    add(('str50', 'layout', ['x' * 50, 1], {}))
+    add(('str50_narrow', 'layout', {'k': ['y' * 30, 2]}, {'width': 40}))
+    add(('huge_int', 'plain', [7 ** 2000], {}))
+    add(('measurement', 'plain', [Measurement(7 ** 6000)], {}))
     foo = Foo(1)
     add(('boxed_pretty_repr', 'shared', BoxU(foo), {}))
     add(('boxed_pretty_repr2', 'shared', [BoxU(foo), foo], {}))
